@@ -87,6 +87,42 @@ let rtl_line cfg order =
 
 let op_rt_reload a = emit (rtl_line !rt_cfg_ref (id_list (str a "order" "-")))
 
+
+(* ---------------- the network: a complete multi-hop run (op rt_net) ---------------- *)
+let parse_links s =
+  if s = "-" || s = "" then [] else
+  List.map (fun p -> match String.split_on_char '-' p with
+                     | [a; b] -> (int_of_string a, int_of_string b)
+                     | _ -> failwith "bad link") (String.split_on_char '.' s)
+let nat_links l = List.map (fun (a, b) -> (nat_of_int a, nat_of_int b)) l
+
+let op_rt_net a =
+  let cfg = !rt_cfg_ref in
+  let s = num a "s" 0 and tz = num a "tz" 0 in
+  let links = nat_links (parse_links (str a "links" "-")) in
+  let ((k, proc), left) = rt_net_model cfg links (nat_of_int tz) (nat_of_int s) in
+  emit "rtn done";
+  emit (Printf.sprintf "rtnd deliv=%d left=%d proc=%s" (int_of_nat k) (int_of_nat left)
+          (match List.rev_map int_of_nat proc with [] -> "-" | l -> String.concat "." (List.map string_of_int l)))
+
+let oracle_rt_net cfg li a l1 l2 fail =
+  let t1 = toks_of l1 and t2 = toks_of l2 in
+  let get t k = match tok_val t k with Some v -> v | None -> "?" in
+  if l1 <> "rtn done" || List.hd t2 <> "rtnd" then fail (Printf.sprintf "step=%d net-run-aborted [%s] [%s]" li l1 l2) else begin
+    let s = num a "s" 0 and tz = num a "tz" 0 in
+    let links = nat_links (parse_links (str a "links" "-")) in
+    let deliv = int_of_string (get t2 "deliv") and left = int_of_string (get t2 "left") in
+    let proc = id_list (get t2 "proc") in
+    if left <> 0 then fail (Printf.sprintf "step=%d net-not-quiescent deliv=%d left=%d" li deliv left) else begin
+      if not (rt_net_pre_b cfg (nat_of_int tz)) then fail (Printf.sprintf "step=%d generator-precondition" li);
+      let k = int_of_nat (rt_net_oracle cfg links (nat_of_int tz) (nat_of_int s) (nat_of_int deliv) (List.map nat_of_int proc)) in
+      if k <> 0 then
+        fail (Printf.sprintf "step=%d netclause=%d %s deliv=%d proc=%s" li k
+                (match k with 1 -> "net-processed-twice" | 2 -> "net-too-many-deliveries" | _ -> "net-incomplete")
+                deliv (get t2 "proc"))
+    end
+  end
+
 (* oracle: the Gallina check [rt_oracle] over every observed step of the IMPLEMENTATION trace *)
 let oracle_c11_case script trace =
   let zones = ref [] and cfg = ref [] in
@@ -110,6 +146,12 @@ let oracle_c11_case script trace =
              (match rt_all_parents !cfg zn with [] -> "-" | l -> String.concat "." (List.map (fun x -> string_of_int (int_of_nat x)) l))) order) in
          if l <> want then fail (Printf.sprintf "step=%d ancestor-chain got=[%s] want=[%s]" li l want) end
        | [] -> fail (Printf.sprintf "step=%d missing-observation" li))
+    | Some ("rt_net", a) ->
+      (match !tr with
+       | l1 :: l2 :: rest when not (is_bad_line l1) && not (is_bad_line l2) ->
+         tr := rest; oracle_rt_net !cfg li a l1 l2 fail
+       | l1 :: _ when is_bad_line l1 -> fail (Printf.sprintf "step=%d crash %s" li l1); tr := []
+       | _ -> fail (Printf.sprintf "step=%d missing-observation" li); tr := [])
     | Some ("rt_step", a) ->
       (match !tr with
        | l1 :: l2 :: rest when not (is_bad_line l1) && not (is_bad_line l2) ->
@@ -146,4 +188,5 @@ let () =
   register_op "rt_topo" op_rt_topo;
   register_op "rt_step" op_rt_step;
   register_op "rt_reload" op_rt_reload;
+  register_op "rt_net" op_rt_net;
   register_oracle "C11" oracle_c11_case
